@@ -51,6 +51,7 @@ type Contract struct {
 	SamePkg    string
 	SameAs     string   // take clauses and parameter names from this contract
 	Dead       []string // return sites declared unreachable (must be proved unreachable)
+	Defines    []*Define
 	Keeps      []string // ghost prefixes opaque callees of this function are assumed not to touch
 	ModAll     bool     // modifies everything: no frame obligation; callers havoc argument referents and all ghosts
 	Scope      string   // extern/iface contract valid only for callers in this package (relative path)
@@ -81,6 +82,18 @@ type ContractFile struct {
 	LibState  []string // heaps holding library-private state (container/list, ...): never constrained, havocked by every call
 }
 
+// Define: `define F(d) := KEY => VAL for i in LO..HI else DEFAULT` - the function that maps KEY(i) to VAL(i) for
+// the indices LO <= i < HI (evaluated in the pre-state) and everything else to DEFAULT. It exists when equal keys
+// carry equal values; that condition is an implicit precondition (proved at call sites). The function symbol is
+// fresh for every application of the contract.
+type Define struct {
+	Name, Param, Idx      string
+	Key, Val, Lo, Hi, Def *Expr
+	Line                  int
+}
+
+var defineRe = regexp.MustCompile(`^(\w+)\((\w+)\)\s*:=\s*(.+?)\s*=>\s*(.+?)\s+for\s+(\w+)\s+in\s+(.+?)\.\.(.+?)\s+else\s+(.+)$`)
+
 // GuardDecl: `//@ guarded T.f1, T.f2 by T.m` - fields f1, f2 of struct T may only be accessed while the
 // sync.Mutex field m of the same struct is held.
 type GuardDecl struct {
@@ -88,7 +101,7 @@ type GuardDecl struct {
 	Fields           []string
 }
 
-var kwRe = regexp.MustCompile(`^(requires|ensures|modifies|panics|may_panic|unguarded|scope|keeps|loop|mode|extern|assumed|pure|props|noinline|uses|iface|hint|trigger|dead|same_as|instance)\b`)
+var kwRe = regexp.MustCompile(`^(requires|ensures|modifies|panics|may_panic|unguarded|scope|keeps|define|loop|mode|extern|assumed|pure|props|noinline|uses|iface|hint|trigger|dead|same_as|instance)\b`)
 
 // parseContractFile reads //@ lines. pkgPath is the import path the file belongs to
 // (can be overridden by a `//@ package <path>` line for extern contract files).
@@ -254,6 +267,23 @@ func parseContractFile(path, pkgPath string) (*ContractFile, error) {
 			last = nil
 		case "uses":
 			cur.Uses = append(cur.Uses, strings.Fields(rest)...)
+			last = nil
+		case "define":
+			m := defineRe.FindStringSubmatch(rest)
+			if m == nil {
+				return nil, fmt.Errorf("%s:%d: define F(d) := KEY => VAL for i in LO..HI else DEFAULT", path, ln+1)
+			}
+			d := &Define{Name: m[1], Param: m[2], Idx: m[5], Line: ln + 1}
+			var err error
+			for _, pe := range []struct {
+				dst **Expr
+				src string
+			}{{&d.Key, m[3]}, {&d.Val, m[4]}, {&d.Lo, m[6]}, {&d.Hi, m[7]}, {&d.Def, m[8]}} {
+				if *pe.dst, err = parseSpec(pe.src); err != nil {
+					return nil, fmt.Errorf("%s:%d: define: %v in %q", path, ln+1, err, pe.src)
+				}
+			}
+			cur.Defines = append(cur.Defines, d)
 			last = nil
 		case "keeps":
 			// opaque calls made by this function (function values, uncontracted callees) keep the ghosts with
